@@ -215,6 +215,51 @@ pub fn run(tier: Tier) -> i32 {
         });
         ctx.scope_done("flush-at-every-offset", jobs.len() as u64, t3, "one flush() at every input offset of the window-wrapping streams");
     }
+    // gathered writes: the input offered through io::Write::write_vectored as two or three slices, for every pair of cut
+    // points of the small inputs (a Stream may consume part of a slice; the caller re-offers the rest)
+    {
+        let t5 = Instant::now();
+        let mut jobs: Vec<(usize, usize, usize)> = Vec::new();
+        for (ii, inp) in ins.iter().enumerate() {
+            let n = inp.bytes.len();
+            if inp.label.contains("header declares") || n < 3 {
+                continue;
+            }
+            if n <= 60 {
+                for a in 0..=n {
+                    for b in a..=n {
+                        jobs.push((ii, a, b));
+                    }
+                }
+            } else if n < 400 {
+                for a in [1usize, 4, 5, 9, 12, 13, 17, 18, 19, 30, n / 2] {
+                    for b in [a, a + 1, a + 9, n - 1, n] {
+                        if a <= n && b <= n && a <= b {
+                            jobs.push((ii, a, b));
+                        }
+                    }
+                }
+            }
+        }
+        par_for(jobs.len() as u64, |i| {
+            let (ii, a, b) = jobs[i as usize];
+            let inp = &ins[ii];
+            let full = match &inp.mode {
+                Mode::Prefix { full, .. } => full,
+                _ => unreachable!(),
+            };
+            let parts = vec![Hex(inp.bytes[..a].to_vec()), Hex(inp.bytes[a..b].to_vec()), Hex(inp.bytes[b..].to_vec())];
+            // (complete input and allow_incomplete off: finish must account for every byte, no look-ahead slack)
+            let case = Case::Stream { opts: Opts { allow_incomplete: false, ..inp.opts }, sk: Sk::default(), ops: vec![SOp::WriteVectoredAll(parts), SOp::Finish] };
+            let o = run_case(&case);
+            ctx.eval(1);
+            ctx.nontriv(1);
+            if !(o.ops.iter().all(|r| r.v.is_ok()) && o.out.0 == *full) {
+                ctx.violation(&case, &format!("{}: the input offered through write_vectored as slices [..{}], [{}..{}], [{}..] (re-offering what a call did not consume), then finish: every call Ok and exactly the complete output ({} bytes)", inp.label, a, a, b, b, full.len()), &o, None);
+            }
+        });
+        ctx.scope_done("gathered-writes", jobs.len() as u64, t5, "every pair of cut points of inputs up to 60 bytes, selected pairs up to 400 bytes");
+    }
     // long inputs (linear): megabytes through a window above 1 MiB that is not a multiple of 1 MiB, cut at a few places
     {
         use crate::refmodel::enc::{self, Sym};
